@@ -430,3 +430,29 @@ package git
 
 //@ property C01: (*Repository).NewReferenceIter$1
 //@ property C16: (*Repository).NewReferenceIter$1 (*Repository).NewObjectIter$3
+
+// ---------------------------------------------------------------- NewRepositoryFromPath (C13)
+// "The repository measured is the real one, however it is addressed": the git
+// directory is whatever `git -C <path> rev-parse --git-dir` answers (git
+// decides: work tree, subdirectory, bare, linked worktree, GIT_DIR), made
+// relative to <path> only if git answered with a relative path; everything
+// else (shallow test, immunised commands) is NewRepositoryFromGitDir.
+//@ func smartJoin
+//@   pure
+//@   call 0 filepath.IsAbs as abs
+//@   call 0 filepath.Join as joined
+//@   call 0 filepath.IsAbs assert same(arg_0, relPath)
+//@   call 0 filepath.Join assert len(arg_0) == 2 && same(arg_0[0], path) && same(arg_0[1], relPath)
+//@   ensures abs ==> same(result, relPath)
+//@   ensures !abs ==> joined_reached && same(result, joined)
+//@ func NewRepositoryFromPath
+//@   pure
+//@   call 0 exec.Command assert len(arg_1) == 4 && arg_1[0] == "-C" && same(arg_1[1], path) && arg_1[2] == "rev-parse" && arg_1[3] == "--git-dir"
+//@   call 0 Cmd).Output as out
+//@   call 0 bytes.TrimSpace assert same(arg_0, out0)
+//@   call 0 smartJoin assert same(arg_0, path)
+//@   call 0 NewRepositoryFromGitDir as made
+//@   ensures out_reached && out1 != nil ==> result1 != nil && result0 == nil
+//@   ensures result1 == nil ==> made_reached && result0 == made0 && made1 == nil
+
+//@ property C13: smartJoin NewRepositoryFromPath
